@@ -183,13 +183,18 @@ def _locate(name):
 def _code_for(name):
     path, is_pkg = _locate(name)
     st = os.stat(path)
-    key = (path, st.st_mtime_ns, st.st_size)
-    ent = _CODE.get(name)
+    # the optimisation level of the calling virtual process' interpreter
+    # (python -O / PYTHONOPTIMIZE strips assert statements)
+    vp = current_vp()
+    opt = getattr(vp, "optimize", 0) if vp is not None else 0
+    key = (path, st.st_mtime_ns, st.st_size, opt)
+    ent = _CODE.get((name, opt))
     if ent is None or ent[0] != key:
         with open(path, "rb") as f:
             src = f.read()
-        ent = (key, compile(src, path, "exec", dont_inherit=True), is_pkg)
-        _CODE[name] = ent
+        ent = (key, compile(src, path, "exec", dont_inherit=True,
+                            optimize=opt), is_pkg)
+        _CODE[(name, opt)] = ent
     return path, ent[1], ent[2]
 
 
@@ -300,6 +305,7 @@ class VProc:
         self.block = None  # (fd, exclusive) while blocked in flock()
         self.locale = "utf-8"  # locale encoding of the current process
         self.env = {}  # environment variables of the current process
+        self.optimize = 0  # python -O for the current process
         self._env_saved = {}
 
     def det_bytes(self, n):
@@ -822,6 +828,9 @@ class Sim:
                 vp.results.append(res)
                 vp.answers = list(cmd.get("answers", ()))
                 vp.locale = cmd.get("locale") or "utf-8"
+                vp.optimize = 1 if cmd.get("python_O") else 0
+                if vp.optimize:
+                    self.probe("process_under_python_O")
                 # environment variables of this process (an overlay on the
                 # harness' environment, swapped at every context switch)
                 self._env_restore(vp)
